@@ -325,7 +325,7 @@ Proof.
   assert (V : (exists c, d = Some c /\ mk_default (hp u) t k d = inr (hp u, DScal c)) \/
               (d = None /\ k = 1 /\ mk_default (hp u) t k d = inr (hp u, DScal (type_default t))) \/
               (d = None /\ k <> 1 /\ mk_default (hp u) t k d = inr (hp u ++ [mkcell t (repeat (type_default t) (Z.to_nat k))], DCell (length (hp u))))).
-  { unfold mk_default in *. destruct d as [c|].
+  { unfold mk_default, default_is_scalar in *. destruct d as [c|].
     - destruct (kind_of c) as [td|]; [|discriminate]. destruct (default_type_bad td t); [discriminate|]. left. eauto.
     - destruct (k =? 1) eqn:K1; [right; left|right; right]; repeat split; auto; lia. }
   pose proof Hi' as [_ [I1 _]].
@@ -500,7 +500,7 @@ Proof.
     destruct (mk_default (hp (tick s)) t k0 d) as [e|[h' df]] eqn:M; inversion E; subst; [reflexivity|].
     unfold rd. simpl. rewrite lookup_put_other by (intros Q; apply NT; auto).
     change (attrs (tick s)) with (attrs s). destruct (lookup a (attrs s)) as [bt|] eqn:Lb; [|reflexivity].
-    unfold mk_default in M. destruct d as [c|].
+    unfold mk_default, default_is_scalar in M. destruct d as [c|].
     + destruct (kind_of c); [|discriminate]. destruct (default_type_bad _ _); inversion M; subst. reflexivity.
     + destruct (k0 =? 1); inversion M; subst; [reflexivity|]. eapply rd_attr_app. destruct Hi as [_ [H1 _]]. eapply H1; eauto.
   - unfold step in E. simpl in E. unfold do_export_shape in E.
